@@ -92,6 +92,57 @@ func genLockTable(c *Ctx) error {
 			c.Nontrivial(fmt.Sprintf("sys|%v|%s|%v|%v", sc.wal, sc.lock, sc.excl, sc.wasWAL))
 		}
 	}
+	// systematic part 2: one owner (two connections of one process) holds two locks of the same file
+	// shared and gives one of them back: the other must still be held (each request names exactly
+	// the lock type of its byte, whatever else the owner holds)
+	type pairCase struct {
+		wal  bool
+		a, b string
+	}
+	var pairs []pairCase
+	for _, a := range walLocks {
+		for _, b := range walLocks {
+			if a != b {
+				pairs = append(pairs, pairCase{true, a, b})
+			}
+		}
+	}
+	for _, wal := range []bool{false, true} {
+		for _, a := range rollbackLocks {
+			for _, b := range rollbackLocks {
+				if a != b {
+					pairs = append(pairs, pairCase{wal, a, b})
+				}
+			}
+		}
+	}
+	for _, pc := range pairs {
+		cs := c.Begin()
+		do := func(op string) string { c.Count("op." + strings.SplitN(op, " ", 2)[0]); return cs.Do(op) }
+		setupMode(cs, pc.wal, false)
+		do(fmt.Sprintf("rlock 5 %s", pc.a))
+		do(fmt.Sprintf("rlock 5 %s", pc.b))
+		do("locks")
+		do(fmt.Sprintf("unlock 5 %s", pc.a))
+		do("locks")
+		do(fmt.Sprintf("canlock 6 %s", pc.b))
+		w := do("whold")
+		do("locks")
+		if w == "true" {
+			do("wrelease")
+		}
+		do(fmt.Sprintf("unlock 5 %s", pc.b))
+		do("locks")
+		w2 := do("whold")
+		if w2 == "true" {
+			do("wrelease")
+		}
+		cs.End()
+		c.Count("pair." + w + "." + w2)
+		if w != w2 {
+			c.Nontrivial(fmt.Sprintf("pair|%v|%s|%s", pc.wal, pc.a, pc.b))
+		}
+	}
 	// random part
 	for s := 0; s < nSeq; s++ {
 		wal := r.Bool()
